@@ -243,10 +243,7 @@ def run(ctx, report):
     # ---------------------------------------------------------------- D9 a memory operand rendered under a suffix-less AT&T mnemonic assembles back
     R9 = report.rule('C09.D9', 'memory forms whose AT&T mnemonic carries no size suffix: the size mnemo_from_att leaves on the operand passes the size check of the /digit row', floor=30)
     ac = arch.method('x86_mn', 'asm_candidates')
-    d_asm = None
-    for n in walk_no_nested(ac):
-        if isinstance(n, ast.If) and u(n.test).replace(' ', '') == 'afsin[d0,d1,d2,d3,d4,d5,d6,d7]':
-            d_asm = n
+    d_asm = X.digit_branch(ac)
     if d_asm is None:
         raise AnalysisError('asm_candidates: the /digit branch was not found')
     # statements of the /digit branch that compute `size` from the operand `a`, up to the check_size_modif test
@@ -410,7 +407,8 @@ def numpy_imm_eval(ctx, args10):
         scope['tab_size2int'][k_].attrs = {'limit': v_.limit}
     for fname_, fnode_ in arch.funcs.items():
         scope.setdefault(fname_, fnode_)
-    Evaluator(scope).call_user(asn, [Obj('cls'), a10])
+    from ..consteval import class_obj
+    Evaluator(scope).call_user(asn, [class_obj(arch, 'x86_mn'), a10])
     return a10
 
 
